@@ -670,7 +670,7 @@ class Cxx:
 		return base + '.bin', ''
 
 	@staticmethod
-	def run(exe: str, ns: str, cpu_limit: int = 4, wall_limit: float = 120.0) -> tuple[dict[tuple[str, int], str], str]:
+	def run(exe: str, ns: str, cpu_limit: int = 3, wall_limit: float = 120.0) -> tuple[dict[tuple[str, int], str], str]:
 		"""-> ((fn, i) -> text, abnormal end '' | 'timeout' | 'wall-timeout' | 'signal N' | 'exit N'). `timeout` = the program used up
 		`cpu_limit` seconds of CPU time (an endless loop: a fact about the program, whatever the load of the machine); `wall-timeout` =
 		no result within `wall_limit` seconds of wall time although the CPU limit was not reached (a fact about the machine: skipped)."""
